@@ -23,6 +23,9 @@ def cases(tier, seed):
             cs.append({'scen': 'solve_structure', 's': {'op': 'amen_solve', 'N': N, 'RA': RA, 'Rb': Rb, 'kw': {'nswp': 1}, 'guess': [1] + [3] * (d - 1) + [1]}})
             cs.append({'scen': 'solve_structure', 's': {'op': 'amen_solve', 'N': N, 'RA': RA, 'Rb': Rb, 'kw': {'nswp': 1, 'max_full': 0, 'use_single_precision': True}}})
             cs.append({'scen': 'solve_structure', 's': {'op': 'amen_solve', 'N': N, 'RA': RA, 'Rb': Rb, 'kw': {'nswp': 1, 'kickrank': 1, 'kick2': 1}}})
+    # x0 = b
+    cs.append({'scen': 'solve_structure', 's': {'op': 'amen_solve', 'N': [2, 3], 'RA': [1, 2, 1], 'Rb': [1, 2, 1], 'kw': {'nswp': 1}, 'guess_is': 'operand'}})
+    cs.append({'scen': 'solve_structure', 's': {'op': 'amen_solve', 'N': [3], 'RA': [1, 1], 'Rb': [1, 1], 'kw': {'nswp': 1}, 'guess_is': 'operand'}})
     return cs
 
 
